@@ -213,9 +213,10 @@ def signature(spec):
 
 
 class Stop(Exception):
-    def __init__(self, verdict, why):
+    def __init__(self, verdict, why, exc=None):
         self.verdict = verdict
         self.why = why
+        self.exc = exc
 
 
 class Driver(object):
@@ -393,7 +394,7 @@ class Driver(object):
             self._hook("on_exception", op, info)
             if info.get("handled"):
                 return
-            raise Stop(common.INC, "bt raised %s: %s during %s" % (type(e).__name__, str(e)[:100], k))
+            raise Stop(common.INC, "bt raised %s: %s during %s" % (type(e).__name__, str(e)[:100], k), exc=e)
         g = ins.gross(root)
         if g > common.GROSS_MAX or ins.max_qty(root) > common.QTY_MAX:
             raise Stop(common.OOD, "magnitude")
